@@ -619,3 +619,20 @@ func (e *Engine) typeInvFor(t types.Type) (*ast.FuncDecl, *types.Info, string) {
 	}
 	return nil, nil, ""
 }
+
+// dynCallKind looks up a dyncall directive for the signature of a dynamic call.
+func (e *Engine) dynCallKind(fn *ssa.Function, t types.Type) string {
+	f := fn
+	for f.Parent() != nil {
+		f = f.Parent()
+	}
+	if f.Pkg == nil {
+		return ""
+	}
+	ps := e.specs[f.Pkg.Pkg.Path()]
+	if ps == nil || ps.DynCalls == nil {
+		return ""
+	}
+	key := types.TypeString(t.Underlying(), func(p *types.Package) string { return p.Name() })
+	return ps.DynCalls[key]
+}
